@@ -89,10 +89,10 @@ def gen_report(rep, results):
         if r.rc != 0 or lines != r.distinct or lines == 0:
             rep.broken.append('%s: rc=%s, %d states, %d lines' % (name, r.rc, r.distinct, lines))
 
-def execute(rep, exe, cases, w, expect_cases=None, build='default'):
+def execute(rep, exe, cases, w, expect_cases=None, build='default', env=None):
     """Run the driver over a case file; classify mismatches.  Returns number of mismatches."""
     mis = w + '/mismatch.ndjson'
-    d = lib.run_driver(exe, ['run', cases, mis], timeout=800)
+    d = lib.run_driver(exe, ['run', cases, mis], timeout=800, env=env)
     if d['rc'] != 0:
         rep.violation('driver-failure', dict(build=build, rc=d['rc'], stderr=d['stderr'].decode(errors='replace')[-3000:]))
         return -1
@@ -174,6 +174,8 @@ def run(pid, tier):
                 if len(seen) >= 8:
                     break
         execute(rep, exe, cases, w, total)
+        # a user unit table in small letters (SI spelling): the same suffixes, multipliers and base units must come out
+        execute(rep, exe, cases, w, total, build='default+unit-table-in-small-letters', env={'DRV_UNITS_LOWER': '1'})
         # the selection of the conversion functions depends on the build: the custom-formatter build and strict ISO C
         for cfg in ('dtostre', 'iso'):
             execute(rep, lib.build('drv_numeric', ['drv_numeric.c'], config=cfg), cases, w, total, build=cfg)
